@@ -525,6 +525,16 @@ def m_getuid(I_, a, k):
     return mk(u)
 
 
+def m_getpid(I_, a, k):
+    u = I_.ctx.fresh_int('pid')
+    I_.ctx.assume(u >= 1)
+    return mk(u)
+
+
+def m_strerror(I_, a, k):
+    return mk(I_.ctx.fresh_str('strerror'))
+
+
 def m_isatty(I_, a, k):
     r = mk(I_.ctx.fresh_bool('isatty'))
     I_.ctx.ghost.setdefault('isatty_calls', []).append((a[0], r))
@@ -599,6 +609,7 @@ def register(lib):
             ('os.unlink', m_remove), ('os.rename', m_rename),
             ('shutil.rmtree', m_rmtree), ('shutil.move', m_shutil_move),
             ('os.getuid', m_getuid), ('os.isatty', m_isatty),
+            ('os.getpid', m_getpid), ('os.strerror', m_strerror),
             ('os.chmod', m_simple_mutation('chmod')),
             ('os.rmdir', m_simple_mutation('rmdir')),
             ('os.utime', m_simple_mutation('utime')),
